@@ -389,9 +389,33 @@ def check_msignal(ctx, P):
         o.check(bad is None, "head-state rows", bad, site=f.loc, construct="multi-signal raise rows " + name)
 
 
+def check_writers(ctx, P):
+    o = ctx.ob("dw.writers", "", "the (counter, pointer) pair of a double-word structure that is shared is modified only by compare_and_swap2 on the whole "
+               "16-byte word; plain or single-word atomic writes to either half occur only in the *_init / *_destroy functions (exclusive access)",
+               "a single-word CAS or store on the pointer half bypasses the ABA counter: a recurring head pointer whose successor changed in between is "
+               "accepted and the nodes behind it fall off the list (a sleeping waiter is never raised, a free node is lost)")
+    bad = None
+    n = 0
+    for fn in P.unique_functions():
+        m = Machine(fn, P)
+        for st in fn.stores():
+            k = fn.target_key(st.target)
+            for u, (inner, cf, pf) in UNIONS.items():
+                if key_mentions(k, lambda x: x[0] == "f" and ((x[1] == inner and x[2] in (cf, pf)) or (x[1] == u and x[2] == "blob"))):
+                    if m.locate(st.target) is not None:
+                        continue          # a private snapshot / desired word
+                    n += 1
+                    if not fn.name.endswith(("_init", "_destroy")):
+                        bad = bad or ("`%s` in %s (%s)" % (st.node.text[:70], fn.name, st.aop or st.kind), st.node)
+    ctx.expect_count("shared double-word writers (init/destroy)", n, 4)
+    o.check(bad is None, "%d shared writes, all in init/destroy" % n, "partial write to a double-word structure: " + (bad[0] if bad else ""),
+            site=bad[1] if bad else None, construct="single-word write to a CAS2-protected pair")
+
+
 def run(ctx):
     P = ctx.prog()
     check_asm(ctx, P)
+    check_writers(ctx, P)
     check_sites(ctx, P)
     check_lifo_dist(ctx, P)
     check_stack(ctx, P)
